@@ -10,6 +10,10 @@ claimed = {
          "Route tables with exact/wildcard/catch-all hosts, nested locations, user restrictions on http/https/tcpmux vhosts; every request's serving backend (which stamps and records) is compared with the reference owner; removed routes must stay silent."),
  "C07": ("exploration", "8 C07", "seeded deterministic simulation in the routes world: protected, unprotected and user-routed routes on the same hosts; request-shape enumeration (origin/absolute form, CONNECT, Authorization/Proxy-Authorization variants, malformed credentials); negative oracle on what protected backends saw",
          "The quantifier is inputs x configurations; decided inside the simulator because the observable spans requester, frps and the backend; a protected backend must have seen a request only if it carried exactly its credentials."),
+ "C14": ("fault_enumeration", "8 C14", "seeded deterministic simulation on the fake clock: silent/blackholed scripted peers against real frps, silent scripted server against real frpc, real frpc+frps under resets, blackholes (2 s - 2 h), server crash/restart, absent/refusing/flapping server; detection-time, never-false (simulated days), bounded-healing and retry-rate oracles",
+         "Fault sequences and their timing are enumerated per run; time bounds are computed from the configured timeouts of the run plus stated slack; simulated days of heartbeats cost milliseconds."),
+ "C19": ("exploration", "8 C19", "seeded deterministic simulation: real frpc against a scripted server with per-proxy reply policies; reload histories and probe-outcome schedules (accept/refuse/blackhole per dial, status/stall per request); message-trace, status-API and work-connection oracles against a configured-and-healthy model",
+         "Histories of configuration sets x server replies x probe outcomes on the fake clock; the trace the scripted server records is compared with a reference model of 'configured and healthy', including the consecutive-failure rule."),
  "C20": ("exploration", "8 C20", "seeded deterministic simulation: scripted visitor/owner/third-party controls on real frps with generated NAT observations and message orders; pairing, complementarity, mode-rule, range and hygiene oracles; real MakeHole for both roles over simulated UDP",
          "Generated observation pairs x histories (reports before analysis, duplicates, unknown sids, silent owner); both responses are compared with each other and with the statement's role rules; the real client routine must meet on an unfiltered simulated network."),
  "C04": ("exploration", "8 C04", "seeded deterministic simulation: adversarial scripted peers (independent protocol implementation) against real frps with an honest client carrying traffic; refusal, heartbeat-timeout, footprint and bystander oracles",
